@@ -373,6 +373,9 @@ type sdEvent struct{ N int }
 func TestC06Shutdown(t *testing.T) {
 	run := vk.New("C06", "shutdown")
 	defer run.Finish()
+	if run.Shard == 0 {
+		savedHandlerContext(run)
+	}
 	durs := []time.Duration{0, 10 * time.Millisecond, 100 * time.Millisecond, time.Hour}                     // (virtual time: an hour-long handler costs nothing)
 	deadlines := []time.Duration{-1, 0, 5 * time.Millisecond, 50 * time.Millisecond, 500 * time.Millisecond} // -1: no deadline, 0: cancelled before the call
 	stores := []string{"none", "close-ok", "close-err", "no-closer", "close-slow"}
